@@ -8,11 +8,17 @@
    pause(defer=False) message, end of the grace sleep of a checkpoint taken with the flag set) -- so a deferred
    request by itself never pauses; step level: the request only sets the flag, a checkpoint with the flag set takes
    the checkpoint (cache := []) and starts the grace sleep, whose end performs the hard pause.
+   FINDING C09-a (confirmed on the real RunEngine, witness below): when the checkpoint that the deferred pause reaches
+   follows a clear_checkpoint of the same call, the engine does not pause there -- an explicit checkpoint does not
+   re-establish resumability (_reset_checkpoint_state_meth returns early while _msg_cache is None), so the pause that
+   takes effect turns into FailedPause/abort at the top of the loop.  Class: [finding_C09_a] (Proofs/RE_Hold.v);
+   [C09_a_refuted] is a run in the class that never becomes paused; outside the class (cache <> None) the top of the
+   loop does pause: [C09_pausing_with_checkpoint_pauses].
    Partial: "no later message is executed before the engine is paused" is NOT a theorem for arbitrary schedules
    (an abort/stop/halt/suspension may land during the grace sleep); it is checked by the implementation-side
    oracle on the corpus.  Wall-clock: the 0.5 s grace sleep is an await point of the model, its length is not modelled. *)
 From Coq Require Import List.
-From BV Require Import Engine.RE Engine.REInst Proofs.RE_Ctl Proofs.RE_Replay Proofs.RE_CtlExamples.
+From BV Require Import Engine.RE Engine.REInst Proofs.RE_Ctl Proofs.RE_Replay Proofs.RE_Hold Proofs.RE_CtlExamples.
 Import ListNotations.
 
 (* after ANY schedule: deferred_pause_requested is what the trace specification says.  In particular (definition of
@@ -73,12 +79,35 @@ Theorem C09_pausing_has_a_cause :
 Proof. exact pausing_needs_cause. Qed.
 Print Assumptions C09_pausing_has_a_cause.
 
+(* outside finding class C09-a: pausing with a checkpoint in effect reaches `paused` at the top of the loop (devices
+   stopped, then paused; the caller is woken; the task waits for the run permit) *)
+Theorem C09_pausing_with_checkpoint_pauses :
+  forall (P : Type) (presume : P -> input -> outcome P) (plan_of : nat -> P) (D : Type) (dev : D -> nat -> devmeth -> D * devres)
+         (fuel : nat) (s : st P D) (os : list obs) (l : list msg) (s2 : st P D) (o2 : list obs) (s3 : st P D) (o3 : list obs),
+    state P D s = Pausing -> cache P D s = Some l -> permit P D s = false ->
+    stop_movables P D dev s = (s2, o2) -> call_pausables P D dev s2 MPause = (s3, None, o3) ->
+    drive P presume plan_of D dev (S fuel) s CTop os =
+    (set_pc P D (set_blocking P D (set_state_raw P D s3 Paused) true) PcPaused,
+     os ++ [] ++ o2 ++ o3 ++ [OState Pausing Paused] ++ [OTask WFuture]).
+Proof. exact pausing_with_checkpoint_pauses. Qed.
+Print Assumptions C09_pausing_with_checkpoint_pauses.
+
+(* finding C09-a: a run in the class (deferred pause pending at a checkpoint that follows clear_checkpoint) that never
+   becomes paused *)
+Example C09_a_refuted :
+  exists tapes ledger paus stag rec evs,
+    finding_C09_a (itrace tapes ledger paus stag rec evs) = true /\ In (EvReqPause true) evs /\
+    no_bad (snd (irun tapes ledger paus stag rec evs)) = true /\
+    ~ (exists a, In (OState a Paused) (snd (irun tapes ledger paus stag rec evs))).
+Proof. exact c09_a_refuted. Qed.
+
 (* the full statement (not proved as one theorem: see header) *)
 Definition C09_full : Prop :=
   forall (P : Type) (presume : P -> input -> outcome P) (plan_of : nat -> P) (D : Type) (dev : D -> nat -> devmeth -> D * devres)
          (d : D) (paus stag : list nat) (rec : bool) (evs1 evs2 : list event),
     let s1 := fst (run P presume plan_of D dev (init P D d paus stag rec) (evs1 ++ [EvReqPause true])) in
     deferred P D s1 = true ->
+    finding_C09_a (trace P presume plan_of D dev (init P D d paus stag rec) (evs1 ++ [EvReqPause true] ++ evs2)) = false ->
     Forall (fun e => e = EvTask) evs2 ->
     let o := snd (run P presume plan_of D dev s1 evs2) in
     (forall x, In x o -> match x with OBad _ => False | _ => True end) ->
@@ -94,6 +123,10 @@ Example C09_nonvacuous :
   mok (mon_run mon0 (itrace ex_defer_tapes ex_defer_ledger ex_defer_paus ex_defer_stag ex_defer_rec ex_defer_evs)) = true /\
   In (TObs (OState Running Pausing)) (itrace ex_defer_tapes ex_defer_ledger ex_defer_paus ex_defer_stag ex_defer_rec ex_defer_evs).
 Proof. exact c09_deferred_takes_effect_at_checkpoint. Qed.
+Example C09_nonvacuous_outside_class :
+  finding_C09_a (itrace ex_defer_tapes ex_defer_ledger ex_defer_paus ex_defer_stag ex_defer_rec ex_defer_evs) = false /\
+  finding_C09_a (itrace ex_defer_late_tapes ex_defer_late_ledger ex_defer_late_paus ex_defer_late_stag ex_defer_late_rec ex_defer_late_evs) = false.
+Proof. exact c09_examples_outside_class. Qed.
 Example C09_nonvacuous_pending :
   In (OOut (OutReturn [0]) Idle true true)
      (snd (irun ex_defer_late_tapes ex_defer_late_ledger ex_defer_late_paus ex_defer_late_stag ex_defer_late_rec ex_defer_late_evs)).
